@@ -41,6 +41,9 @@ func (failingW) Write(p []byte) (int, error) { return 0, errors.New("destination
 // c11w is the monitored destination every logger of a C11 tree writes to.
 var c11w io.Writer
 
+// c11log is the event log behind c11w.
+var c11log *mon.Log
+
 type modeCall struct {
 	name string
 	// apply on the target; returns the logger whose state the call defines (target for Set, new child for With / New option)
@@ -135,6 +138,31 @@ func modeAlphabet(full bool) []modeCall {
 				t.Info("a record into a real file")
 				return t.SetWriter(c11w).SetErrorWriter(c11w)
 			}, func(s Format) Format { return s }),
+			set("a record into a log file made by NewFileWriter", func(t *slog.Entry) *slog.Entry {
+				// the same record into a file made by the package's own constructor and into the recording destination:
+				// where a record goes is no input of its format
+				d, err := os.MkdirTemp("", "c11-fw-*")
+				if err != nil {
+					return t
+				}
+				defer os.RemoveAll(d)
+				fw := slog.NewFileWriter(d + "/app.log")
+				t.SetWriter(fw).SetErrorWriter(fw)
+				t.Info("shape-probe", "k", 1)
+				_ = fw.Close()
+				inFile, _ := os.ReadFile(d + "/app.log")
+				t.SetWriter(c11w).SetErrorWriter(c11w)
+				var direct []byte
+				for _, e := range capture(c11log, func() { t.Info("shape-probe", "k", 1) }) {
+					direct = append(direct, e.Data...)
+				}
+				f1, ok1 := classify(inFile, false)
+				f2, ok2 := classify(direct, false)
+				if ok2 && (!ok1 || f1 != f2) {
+					c11clash = fmt.Sprintf("the same record reads as %v in the recording destination and as %q in a log file made by NewFileWriter (%s)", f2, clip(string(inFile), 160), map[bool]string{true: "a whole " + f1.String() + " record", false: "not a whole record of any of the three formats"}[ok1])
+				}
+				return t
+			}, func(s Format) Format { return s }),
 			set("a record to a destination that fails", func(t *slog.Entry) *slog.Entry {
 				t.SetWriter(failingW{}).SetErrorWriter(failingW{})
 				t.Info("a record whose destination reports an error")
@@ -220,8 +248,12 @@ type c11step struct {
 }
 
 // c11run executes one sequence on a fresh three-logger tree and checks getters and probe shapes of every logger after every call.
+// c11clash: set by an alphabet call that compared the same record at two destinations
+var c11clash string
+
 func c11run(c *Ctx, idx int, log *mon.Log, w mon.W, alpha []modeCall, steps []c11step) bool {
 	c11w = w
+	c11log = log
 	if c11noColours {
 		c11noColours = false
 		slog.SetLevelColors(slog.InfoLevel, color.FgCyan, color.NoColor)
@@ -229,19 +261,45 @@ func c11run(c *Ctx, idx int, log *mon.Log, w mon.W, alpha []modeCall, steps []c1
 	}
 	c11handlers = map[*slog.Entry]stdslog.Handler{}
 	root := newRoot("root", FColor, w, slog.AlwaysLevel)
+	start := FColor
+	if idx%5 == 2 {
+		// the root is made while the flag LsmartJSONMode is set ("JSON when the output device is not a terminal" - a
+		// documented flag that nothing reads today) and gets NO mode call of its own: it may start colored or as JSON,
+		// but as exactly one of them; which one is read from its getters, and everything after follows the rule
+		slog.AddFlags(slog.LsmartJSONMode)
+		root = rawEntry(slog.New("root"))
+		slog.RemoveFlags(slog.LsmartJSONMode)
+		root.SetWriter(w).SetErrorWriter(w).SetLevel(slog.AlwaysLevel)
+		c.R.Add("roots_created_under_the_smart_JSON_flag_without_a_mode_call", 1)
+		switch j, cm := root.JSONMode(), root.ColorMode(); {
+		case j && !cm:
+			start = FJSON
+		case cm && !j:
+			start = FColor
+		default:
+			c.R.Violation(idx, "getters", "C11/getters/exactly-one-format", fmt.Sprintf("a logger made by the package-level New while the flag LsmartJSONMode was set reports JSONMode=%v ColorMode=%v: not exactly one of the three formats", j, cm), nil)
+			return false
+		}
+	}
 	a := root.New("a")
 	b := a.New("b")
 	for _, l := range []*slog.Entry{a, b} {
 		l.SetWriter(w).SetErrorWriter(w).SetLevel(slog.AlwaysLevel)
 	}
 	loggers := []*slog.Entry{root, a, b}
-	state := []Format{FColor, FColor, FColor}
+	state := []Format{start, start, start}
 	var hist []string
 	for si, st := range steps {
 		mc := alpha[st.call]
 		t := loggers[st.target]
 		hist = append(hist, fmt.Sprintf("%s@%d", mc.name, st.target))
 		aff, created := mc.do(t, si)
+		if c11clash != "" {
+			why := c11clash
+			c11clash = ""
+			c.R.Violation(idx, "record-shape", "C11/record-shape/file-destination", fmt.Sprintf("after %v: %s", hist, why), map[string]any{"sequence": hist})
+			return false
+		}
 		known := false
 		for _, l := range loggers {
 			known = known || l == aff
